@@ -20,7 +20,7 @@ LEVEL = "exploration"
 RUNS = {"quick": 1500, "thorough": 30000}
 CHUNK = {"quick": 16, "thorough": 64}
 PROBES = ["keylen_2", "keylen_3_15", "keylen_16_100", "keylen_101_255", "keylen_256", "periodic_key", "opts_1", "opts_2",
-          "opts_3", "opts_4", "container_xorpe", "area_at_0", "fault_in_settings", "fault_in_padding", "fault_in_checksum",
+          "opts_3", "opts_4", "container_xorpe", "area_at_0", "stray_marker_before_area", "fault_in_settings", "fault_in_padding", "fault_in_checksum",
           "fault_in_marker", "fault_in_guard_settings", "fault_checksum_delta", "fault_checksum_zero", "fault_checksum_absent", "rejected_under_fault",
           "recovered_under_fault", "metadata_only", "entry_iter"]
 RULE = ("seeded plans: settings list (1-40 records, zero-padded to 6144) masked with an environmental key of length 2..256 "
@@ -72,6 +72,15 @@ def generate(rng, tier, index):
     plan = {"container": container, "size": at + rng.choice([0, 0, 50, 700]), "filler": {"kind": "random", "seed": rng.getrandbits(24)},
             "guards": [{"at": at, "settings": settings, "env_key": hx(key), "guard": guard, "checksum_delta": 0}],
             "faults": [], "entry": rng.choice(["from_bytes", "from_bytes", "from_file", "iter"])}
+    if at >= 6200 or rng.random() < 0.25:
+        # a stray guard marker (12 bytes satisfying the marker relation) with >= 6144 bytes in front of it, before the real
+        # area: the scanner reports it as a guard configuration without beacon config, then finds the real one
+        if at < 6200:
+            at = rng.randint(6200, 9000)
+            plan["guards"][0]["at"] = at
+            plan["size"] = at + rng.choice([0, 50])
+        opt = rng.choice([5, 6, 7, 8])
+        plan["stray"] = {"at": rng.randint(6138, at - 13), "a": hx(bytes(rng.getrandbits(8) for _ in range(6))), "opt": opt}
     if container == "xorpe":
         plan["pe"] = {"arch": rng.choice(["x86", "x64"]), "e_lfanew": rng.choice([64, 128, 240]), "compile": rng.getrandbits(32),
                       "export": rng.choice([None, rng.getrandbits(32)]), "text": 16, "seed": rng.getrandbits(16),
@@ -85,7 +94,7 @@ def generate(rng, tier, index):
                 plan["guards"][0]["checksum_mode"] = w
                 continue
             if w == "delta":
-                plan["guards"][0]["checksum_delta"] = rng.choice([1, -1, 2, 0x100, rng.getrandbits(24) or 5])
+                plan["guards"][0]["checksum_delta"] = rng.choice([1, -1, 2, 0x100, 0x80000000, 0x80000000, rng.getrandbits(24) or 5])
                 continue
             rel = {"settings": rng.randint(0, enc_len - 1), "padding": rng.randint(enc_len, 6143),
                    "checksum": 6144 + 8 * len(guard) - (2 if 8 not in subset else 0) + 6 + rng.randint(0, 3),
@@ -108,6 +117,14 @@ def build(plan):
     plain, lay = images.build_plain(plan)
     p = bytearray(plain)
     base = lay["guard0.cfg"]
+    if plan.get("stray"):
+        st = plan["stray"]
+        a = unhx(st["a"])
+        start = {5: b"\x00\x05\x00\x01\x00\x02", 6: b"\x00\x06\x00\x01\x00\x02", 7: b"\x00\x07\x00\x01\x00\x02",
+                 8: b"\x00\x08\x00\x02\x00\x04"}[st["opt"]]
+        b = bytes(x ^ y ^ 0x8A for x, y in zip(a[::-1], start))
+        off = (base - plan["guards"][0]["at"]) + st["at"]
+        p[off:off + 12] = a + b
     for f in plan["faults"]:
         rel = f["rel"]
         if f["where"] == "checksum":
@@ -168,6 +185,8 @@ def execute(plan: dict) -> Result:
         res.probes["container_xorpe"] += 1
     if g["at"] == 0:
         res.probes["area_at_0"] += 1
+    if plan.get("stray"):
+        res.probes["stray_marker_before_area"] += 1
     for f in plan["faults"]:
         res.probes["fault_in_" + f["where"]] += 1
         res.faults["flip_" + f["where"]] += 1
